@@ -37,8 +37,13 @@ class Controller:
         for z in range(nzones):
             self.new_schedule(z, bump=False)
         self.calls = []           # (zone or None, kind)
+        self.verbs = []           # verb of each call
         self.plan = {}            # call index -> "raise" | "hang" | ("bump", zone)
         self.hang = None
+        self.gwy = None           # when set: every reply is ALSO heard by all entities, through the gateway's own message handler (as on the air)
+        self.rx_buf = {}          # fragments of a write under way, per zone
+        self.dispatch_errors = []
+        self.on_write = None      # called with the zone when a complete write has replaced its schedule
 
     def new_schedule(self, z, bump=True, days=None):
         days = days or gen_schedule(self.rng, False, 3)
@@ -54,6 +59,7 @@ class Controller:
         n = len(self.calls)
         zone = int(cmd.payload[:2], 16) if cmd.code == "0404" else None
         self.calls.append((zone, cmd.code, cmd.payload))
+        self.verbs.append(cmd.verb)
         act = self.plan.get(n)
         if act == "raise":
             raise exc.ProtocolSendFailed("scripted loss")
@@ -66,14 +72,40 @@ class Controller:
         await asyncio.sleep(1 / 64)
         now = _dt.datetime.now()
         if cmd.code == "0006":
-            return Packet.from_port(now, f"045 RP --- {CTL} 18:000730 --:------ 0006 004 0005{self.counter:04X}")
+            return self.heard(Packet.from_port(now, f"045 RP --- {CTL} 18:000730 --:------ 0006 004 0005{self.counter:04X}"))
         k = int(cmd.payload[10:12], 16)
+        if cmd.verb == " W":      # a fragment being written: stored, acknowledged with an I (no fragment; the last one says total 00)
+            total = int(cmd.payload[12:14], 16)
+            buf = self.rx_buf.setdefault(zone, {})
+            if k == 1:
+                buf.clear()
+            buf[k] = cmd.payload[14:]
+            last = k == total
+            if last and len(buf) == total:
+                frs = [buf[i] for i in range(1, total + 1)]
+                self.zones[zone] = (self.S.fragz_to_full_sched(frs)["schedule"], frs)
+                self.counter += 1
+                buf.clear()
+                if self.on_write:
+                    self.on_write(zone)
+            body = f"{cmd.payload[:10]}{k:02X}{0 if last else total:02X}"
+            return self.heard(Packet.from_port(now, f"045  I --- {CTL} 18:000730 --:------ 0404 007 {body}"))
         frs = self.zones[zone][1]
         if k > len(frs):
             k = len(frs)
         f = frs[k - 1]
         pl = f"{zone:02X}200008{len(f) // 2:02X}{k:02X}{len(frs):02X}{f}"
-        return Packet.from_port(now, f"045 RP --- {CTL} 18:000730 --:------ 0404 {len(pl) // 2:03d} {pl}")
+        return self.heard(Packet.from_port(now, f"045 RP --- {CTL} 18:000730 --:------ 0404 {len(pl) // 2:03d} {pl}"))
+
+    def heard(self, pkt):
+        """The reply is on the air: every entity hears it through the gateway's own handler, besides the caller getting it back."""
+        if self.gwy is not None:
+            from ramses_tx.message import Message  # noqa: PLC0415
+            try:
+                self.gwy._msg_handler(Message(pkt))
+            except Exception as err:  # noqa: BLE001
+                self.dispatch_errors.append(f"{type(err).__name__}: {err}"[:120])
+        return pkt
 
 
 def small_schedule(rng):
@@ -110,6 +142,8 @@ def episode(scn):
         ctl = Controller(S, random.Random(scn["seed"]), 3)
         ctl.plan = {int(k): (tuple(v) if isinstance(v, list) else v) for k, v in scn["plan"].items()}
         gwy.async_send_cmd = ctl.send
+        if scn.get("dispatch"):
+            ctl.gwy = gwy
         zones = {int(z.idx, 16): z for z in gwy.tcs.zones}
         results = []
 
@@ -135,6 +169,18 @@ def episode(scn):
             versions_seen.setdefault(z, []).append(ctl.zones[z][0])
 
         ctl.new_schedule = new_schedule
+        ctl.on_write = lambda z: versions_seen.setdefault(z, []).append(ctl.zones[z][0])
+
+        async def write(z, timeout):
+            days = gen_schedule(ctl.rng, False, 3)
+            try:
+                r = await asyncio.wait_for(zones[z]._schedule.set_schedule(days), timeout)
+                return ("written" if r == days and ctl.zones[z][0] == days else "write-returns-other-schedule", r)
+            except TimeoutError as err:
+                return ("lock-timeout" if "lock" in str(err) else "write-abandoned", None)
+            except Exception as err:  # noqa: BLE001
+                return ("write-failed:" + type(err).__name__, None)
+
         for z in scn.get("small", ()):
             ctl.new_schedule(z, bump=False, days=small_schedule(ctl.rng))
             versions_seen[z] = [ctl.zones[z][0]]
@@ -143,6 +189,8 @@ def episode(scn):
                 results.append(await fetch(step[1], step[2]))
             elif step[0] == "probe":
                 results.append(await fetch(step[1], step[2], force=True, probe=True))
+            elif step[0] == "set":
+                results.append(await write(step[1], step[2]))
             elif step[0] == "bump":
                 ctl.new_schedule(step[1])
                 continue
@@ -154,6 +202,9 @@ def episode(scn):
             obs.setdefault("lock_after", []).append(gwy.tcs.zone_lock_idx)
         obs["results"] = [(k, None) for k, _ in results]
         obs["calls"] = len(ctl.calls)
+        obs["verbs"] = list(ctl.verbs)
+        obs["codes"] = [c[1] for c in ctl.calls]
+        obs["dispatch_errors"] = ctl.dispatch_errors[:5]
         obs["nfrags"] = {z: len(v[1]) for z, v in ctl.zones.items()}
         await gwy.stop()
 
@@ -317,6 +368,18 @@ def run(ctx: Ctx) -> None:
         scns.append({"seed": seed, "plan": {}, "steps": [("together", [0, 1, 2], 400)], "n_aw": n_aw, "pos": None, "kind": "concurrent"})
         scns.append({"seed": seed, "plan": {"1": "raise"}, "steps": [("together", [0, 1], 400), ("fetch", 2, 400)], "n_aw": n_aw, "pos": 1, "kind": "concurrent+raise"})
         scns.append({"seed": seed, "plan": {"2": "hang"}, "steps": [("together", [0, 1], 20), ("fetch", 2, 400)], "n_aw": n_aw, "pos": 2, "kind": "concurrent+hang"})
+    # WRITES: zone 0 fetches, then writes a new schedule (every reply is also heard by all entities, as on the air), with one fault at each of the
+    # write's exchanges in turn (or none); then another zone's schedule changes and both zones are fetched, undisturbed
+    for seed in seeds:
+        wsteps = [("fetch", 0, 30), ("set", 0, 30), ("bump", 1)] + PROBES
+        base = episode({"seed": seed, "plan": {}, "steps": wsteps, "dispatch": True})
+        wpos = [i for i, (v, c) in enumerate(zip(base["verbs"], base["codes"])) if v == " W"]
+        after = [wpos[-1] + 1] if wpos and wpos[-1] + 1 < base["calls"] else []          # the version query that follows the last fragment
+        scns.append({"seed": seed, "plan": {}, "steps": wsteps, "dispatch": True, "n_aw": base["calls"], "pos": None, "kind": "write"})
+        for pos in wpos + after:
+            for kind in ("raise", "hang"):
+                scns.append({"seed": seed, "plan": {str(pos): kind}, "steps": wsteps, "dispatch": True, "n_aw": base["calls"], "pos": pos, "kind": "write+" + kind})
+        scns.append({"seed": seed, "plan": {}, "steps": [("fetch", 0, 30), ("bump", 0)] + PROBES, "dispatch": True, "n_aw": n_aw, "pos": None, "kind": "change-between"})
     coq_cases, impl_rows = [], []
     for s in scns:
         o = episode(s)
@@ -327,9 +390,17 @@ def run(ctx: Ctx) -> None:
             ctx.violation("lock-left-behind", "a schedule transfer ended (failed, abandoned or completed) with the schedule lock still held", case, "fault-sequence")
         if "lock-timeout" in res:
             ctx.violation("later-transfer-blocked", "a later transfer for another zone could not obtain the lock", case, "fault-sequence")
+        for e in o.get("dispatch_errors", []):
+            ctx.violation("reply-heard-by-the-entities-raises:" + e.split(":")[0], "a schedule reply, delivered to the entities as the dispatcher does, raised: " + e, case, "fault-sequence")
+        if s["kind"] == "write" and res[1] != "written":
+            ctx.violation("undisturbed-write-fails", "an undisturbed schedule write does not end with the controller holding the new schedule", case, "fault-sequence")
+        if "write-returns-other-schedule" in res:
+            ctx.violation("write-returns-other-schedule", "a schedule write returned although the controller does not hold that schedule", case, "fault-sequence")
         if "wrong-schedule" in res:
             ctx.violation("mixed-or-wrong-schedule", "a fetch returned a schedule that the controller never had for that zone", case, "fault-sequence")
-        fetches = [st for st in s["steps"] if st[0] in ("fetch", "probe")]
+        fetches = []          # the step each result belongs to
+        for st in s["steps"]:
+            fetches += [st] if st[0] in ("fetch", "probe", "set") else [("fetch", z, st[2]) for z in st[1]] if st[0] == "together" else []
         for st, r in zip(fetches, res):
             if st[0] == "probe" and r == "stale-schedule":
                 ctx.violation("probe-returns-stale-schedule", "an undisturbed, forced fetch returns an earlier version of the zone's schedule, not the controller's current one", case, "fault-sequence")
